@@ -4,6 +4,7 @@ Require Import Coq.Lists.List.
 Require Import Coq.Arith.Arith.
 Require Import Urcu.Fork.Fork.
 Require Import Urcu.BpArena.BpArena.
+Require Import Urcu.Fork.ForkRun.
 Import ListNotations.
 
 (* for every number of helpers and every schedule of call_rcu calls, helper steps (splice, grace period, invocations, pause, resume) and handler steps from the initial state: whenever the fork step is enabled every helper is PAUSED, unregistered, with an empty private batch; the child starts with the concatenation of the queues, the parent's helpers are untouched - each pending callback is queued exactly once in each process *)
@@ -16,6 +17,16 @@ Theorem C16_fork_all_runs :
     child (exec nh FFork s) = Some (merged nh s) /\ (forall h : nat, hp (exec nh FFork s) h = hp s h).
 Proof. exact (@Urcu.Fork.Fork.fork_all_runs). Qed.
 Print Assumptions C16_fork_all_runs.
+
+(* every run accepted by the executable acceptor (the one the projected traces of urcu-call-rcu-impl.h are fed to) that stands at the fork has every helper parked, unregistered, with an empty private batch; the child inherits exactly the queued callbacks *)
+Theorem C16_accepted_run_fork_quiescent :
+    forall (nh : nat) (l : list choice) (s : st),
+    frun nh l init = Some s ->
+    enabled nh FFork s = true ->
+    (forall h : nat, h < nh -> hph (hp s h) = H_Paused /\ hbatch (hp s h) = [] /\ hreg (hp s h) = false) /\
+    child (exec nh FFork s) = Some (merged nh s).
+Proof. exact (@Urcu.Fork.ForkRun.accepted_run_fork_quiescent). Qed.
+Print Assumptions C16_accepted_run_fork_quiescent.
 
 (* the helper invariant (PAUSED only at the top of the loop, where the batch is empty and the thread has unregistered) is preserved by every step *)
 Theorem C16_fork_invariant_step :
